@@ -6,7 +6,7 @@ open List0
 open TableSM
 
 type cfg = { c_factor : coq_N; c_max_wal_files : coq_N;
-             c_max_wal_bytes : coq_N; c_seed : name }
+             c_max_wal_bytes : coq_N }
 
 type segment = { sg_bytes : coq_N; sg_data : batch }
 
